@@ -338,8 +338,15 @@ def label_paths_of(func, flow=None):
     flow = flow or reaching(func.node)
     org = Origins(flow)
     out = set()
+    # a `.scale` read inside the argument of change_scale(...) is a use of a label, not an emission of it
+    inside_norm = set()
     for n in ast.walk(func.node):
-        if isinstance(n, ast.Attribute) and n.attr == "scale" and isinstance(n.ctx, ast.Load):
+        if is_change_scale(n):
+            for a in n.args:
+                for x in ast.walk(a):
+                    inside_norm.add(id(x))
+    for n in ast.walk(func.node):
+        if isinstance(n, ast.Attribute) and n.attr == "scale" and isinstance(n.ctx, ast.Load) and id(n) not in inside_norm:
             for o in org.of(n.value):
                 if o[0] == "path":
                     out.add(o[1])
